@@ -140,6 +140,49 @@ def run(ctx, model):
                     n_hole += _judge(ctx, "R-HOLE", f, meth, outs, r,
                                      f"{meth}{'(on_right=False)' if extra else ''} recv={spec[0]} arg={a[0]}",
                                      ALLOWED_EXC.get(meth, set()))
+    # confusable texts: one operand ends (starts) with the other operand's text, but escaped - 's\\\\b' next to '\\b',
+    # 's\\$' next to '$': a builder that inspects the text of its operands must not mistake one for the other
+    from ..absdom import parse_regex
+    import re as _re
+
+    def _valid(t):
+        try:
+            parse_regex(t)
+            return True
+        except _re.error:
+            return False
+    for meth, ref in B.BINARY_REF.items():
+        pairs = []
+        for a in args:
+            if a[1] not in ("Empty",):
+                for rt in ("s\\" + a[2], a[2] + "s", "s" + a[2][1:] if a[2].startswith("\\") else None):
+                    if rt and rt != a[2] and _valid(rt) and _valid(a[2] + rt) and a[1] in ("Assertion", "Token", "Class"):
+                        pairs.append(((f"Other:{rt!r}", "Other", rt, True), a))
+        for rcv in recvs:
+            if rcv[1] in ("Assertion", "Token", "Class"):
+                at = "p\\" + rcv[2]
+                if _valid(at):
+                    pairs.append((rcv, (f"Other:{at!r}", "Other", at, True)))
+        for spec, a in pairs:
+            outs, f = B.call_method_ident(model, meth, spec, [a])
+            n_hole += _judge(ctx, "R-HOLE", f, meth, outs, ref(spec[2], a[2]), f"{meth} recv={spec[0]} arg={a[0]} [confusable texts]",
+                             ALLOWED_EXC.get(meth, set()))
+        # bare anchors / shorthands against a literal that ends (starts) with the same characters escaped; types from
+        # the interpreted classifier
+        mf = model.method(PRE, "Pregex", meth)
+        P = model.pregex
+        for anchor in ("\\b", "\\B", "$", "^", "\\Z", "\\A", "\\d", "."):
+            for rt in ("s\\" + anchor, "\\" + anchor + "s", "s\\" + anchor + "t", "\\" + anchor):
+                for swap in (False, True):
+                    x, y = (anchor, rt) if swap else (rt, anchor)
+
+                    def thunk(it, x=x, y=y):
+                        r = it.construct(P, [x], {"escape": False})
+                        a_ = it.construct(P, [y], {"escape": False})
+                        return it.call(FuncRef(mf, r, True), [a_])
+                    outs = B.run_thunk(model, thunk, real_classifier=True)
+                    n_hole += _judge(ctx, "R-HOLE", mf, meth, outs, ref(x, y), f"{meth} recv={x!r} arg={y!r} [confusable texts]",
+                                     ALLOWED_EXC.get(meth, set()) | {"NonFixedWidthPatternException", "CannotBeRepeatedException"})
     for meth, mk_ref in (("capture", lambda R, x: f"({R})" if x is None else f"(?P<{x}>{R})"),
                          ("group", lambda R, x: f"(?i:{R})" if x else f"(?:{R})")):
         for spec in recvs:
